@@ -14,6 +14,9 @@
 //            GlyphCache on the base font with these Gloc and Glat tables (exact-size buffers); for each gid the attributes of the glyph
 //            -> fault | noglyphs | ok <numGlyphs> <numAttrs> <hasBoxes> | <per gid: - (no such glyph) | F (not loaded) |
 //                 n=<chunks> C:<digest of the chunks: mask bits 0-23, 24-47, offset> V:<digest of the values> L:<attrs[key],…> B:<sub-boxes>,<bitmap> or B:->
+//         face <face options> <chunk bits> <glyph count of maxp> <Silf hex> <Gloc hex> <Glat hex> <Feat hex> <Sill hex>     (- = absent)
+//            gr_make_face_with_ops with these five tables (exact-size buffers) and the other tables of the base font, then gr_face_destroy
+//            -> fault | compressed | noface | ok <glyphs> <features> <languages> <sub-tables>:<passes of each>
 //         codeinfo                          -> <numClasses> <numGlyphAttrs> <numFeatures> <numUser> <sizeof(instr)>: the limits the code loader takes from the base font, and the size of an instruction slot (the model's pool arithmetic assumes 8)
 //         code <constraint 0|1> <passtype> <pre_context> <rule_length> <classes> <gattrs> <feats> <user> <hex bytecode>
 //            Machine::Code's loading constructor on exactly these bytes (own buffers); the four limits must be codeinfo's
@@ -98,9 +101,17 @@ static bool face_matches(const Face *face, const std::vector<std::string> &w, si
         && (strtoul(w[at + 2].c_str(), 0, 10) != 0) == face->glyphs().hasBoxes() && strtoul(w[at + 3].c_str(), 0, 10) == face->numFeatures();
 }
 
-struct TableCtx { FileFace *ff; const uint8_t *silf; size_t silf_len; const uint8_t *gloc; size_t gloc_len; const uint8_t *glat; size_t glat_len; };
+struct TableCtx { FileFace *ff; const uint8_t *silf; size_t silf_len; const uint8_t *gloc; size_t gloc_len; const uint8_t *glat; size_t glat_len;
+                  const uint8_t *feat; size_t feat_len; const uint8_t *sill; size_t sill_len; bool all; };
 static const void *ctx_get_table(const void *h, unsigned int name, size_t *len) {
     const TableCtx *c = static_cast<const TableCtx *>(h);
+    if (c->all) {     // the five Graphite tables all come from the line; an empty one is absent
+        const uint8_t *p = 0; size_t n = 0; bool mine = true;
+        if (name == Tag::Silf) { p = c->silf; n = c->silf_len; } else if (name == Tag::Gloc) { p = c->gloc; n = c->gloc_len; }
+        else if (name == Tag::Glat) { p = c->glat; n = c->glat_len; } else if (name == Tag::Feat) { p = c->feat; n = c->feat_len; }
+        else if (name == Tag::Sill) { p = c->sill; n = c->sill_len; } else mine = false;
+        if (mine) { *len = n; return n ? p : 0; }
+    }
     if (name == Tag::Silf && c->silf) { *len = c->silf_len; return c->silf; }
     if (name == Tag::Gloc && c->gloc) { *len = c->gloc_len; return c->gloc; }
     if (name == Tag::Glat && c->glat) { *len = c->glat_len; return c->glat; }
@@ -108,7 +119,7 @@ static const void *ctx_get_table(const void *h, unsigned int name, size_t *len) 
 }
 static void ctx_rel_table(const void *h, const void *p) {
     const TableCtx *c = static_cast<const TableCtx *>(h);
-    if (p == c->silf || p == c->gloc || p == c->glat) return;
+    if (p == c->silf || p == c->gloc || p == c->glat || p == c->feat || p == c->sill) return;
     (*FileFace::ops.release_table)(c->ff, p);
 }
 
@@ -167,7 +178,7 @@ int main(int argc, char **argv) {
             unsigned opts = atoi(w[1].c_str());
             Exact eloc(b), elat(b2);
             FileFace *ff = new FileFace(argv[1]);
-            TableCtx ctx = { ff, 0, 0, eloc.p, b.size(), elat.p, b2.size() };
+            TableCtx ctx = { ff, 0, 0, eloc.p, b.size(), elat.p, b2.size(), 0, 0, 0, 0, false };
             const gr_face_ops ops = { sizeof(gr_face_ops), &ctx_get_table, &ctx_rel_table };
             Face *f = new Face(&ctx, ops);
             {
@@ -201,6 +212,36 @@ int main(int argc, char **argv) {
                 }
             }
             delete f;
+            delete ff;
+            if (g_faults) out = "fault";
+        } else if (w.size() == 9 && w[0] == "face") {
+            // gr_make_face_with_ops with the five Graphite tables from the line (exact-size buffers, empty = absent), everything else from the base font
+            std::vector<uint8_t> t[5];
+            bool okp = true;
+            for (int k = 0; k < 5; ++k) okp = okp && parse_hex(w[4 + k], t[k]);
+            size_t maxp_len = 0;
+            const void *maxp = (*face->m_ops.get_table)(face->m_appFaceHandle, Tag::maxp, &maxp_len);
+            unsigned ngg = maxp ? (unsigned)TtfUtil::GlyphCount(maxp) : 0;
+            if (maxp && face->m_ops.release_table) (*face->m_ops.release_table)(face->m_appFaceHandle, maxp);
+            if (!okp || strtoul(w[2].c_str(), 0, 10) != sparse::SIZEOF_CHUNK || strtoul(w[3].c_str(), 0, 10) != ngg) { puts("bad-op"); fflush(stdout); continue; }
+            auto compressed = [](const std::vector<uint8_t> &x, unsigned minv) {
+                return x.size() >= 8 && ((unsigned)(x[0] << 24 | x[1] << 16 | x[2] << 8 | x[3]) >= minv) && (x[4] >> 3) != 0; };
+            if (compressed(t[0], 0x00050000u) || compressed(t[2], 0x00030000u)) { puts("compressed"); fflush(stdout); continue; }
+            unsigned opts = atoi(w[1].c_str());
+            Exact e0(t[0]), e1(t[1]), e2(t[2]), e3(t[3]), e4(t[4]);
+            FileFace *ff = new FileFace(argv[1]);
+            TableCtx ctx = { ff, e0.p, t[0].size(), e1.p, t[1].size(), e2.p, t[2].size(), e3.p, t[3].size(), e4.p, t[4].size(), true };
+            const gr_face_ops ops = { sizeof(gr_face_ops), &ctx_get_table, &ctx_rel_table };
+            gr_face *nf = gr_make_face_with_ops(&ctx, &ops, opts);
+            if (g_faults) out = "fault";
+            else if (!nf) out = "noface";
+            else {
+                const Face *F = static_cast<const Face *>(nf);
+                snprintf(buf, sizeof buf, "ok %u %u %u %u:", (unsigned)gr_face_n_glyphs(nf), (unsigned)F->numFeatures(), (unsigned)gr_face_n_languages(nf), (unsigned)F->m_numSilf);
+                out = buf;
+                for (unsigned k = 0; k < F->m_numSilf; ++k) { snprintf(buf, sizeof buf, "%s%u", k ? "," : "", (unsigned)F->m_silfs[k].numPasses()); out += buf; }
+            }
+            if (nf) gr_face_destroy(nf);
             delete ff;
             if (g_faults) out = "fault";
         } else if (w.size() == 1 && w[0] == "codeinfo") {
@@ -259,7 +300,7 @@ int main(int argc, char **argv) {
             if (b.size() >= 8 && ((b[0] << 24 | b[1] << 16 | b[2] << 8 | b[3]) >= 0x00050000u) && (b[4] >> 3) != 0) { puts("compressed"); fflush(stdout); continue; }
             Exact e(b);
             FileFace *ff = new FileFace(argv[1]);
-            TableCtx ctx = { ff, e.p, b.size(), 0, 0, 0, 0 };
+            TableCtx ctx = { ff, e.p, b.size(), 0, 0, 0, 0, 0, 0, 0, 0, false };
             const gr_face_ops ops = { sizeof(gr_face_ops), &ctx_get_table, &ctx_rel_table };
             Face *f = new Face(&ctx, ops);
             {
